@@ -441,6 +441,24 @@ pub fn run(a: &Args) {
         let opts = optsets[fi % optsets.len()];
         let mut injs = injections(&b, &mut rng);
         injs.push(bad_filter_file(&mut rng));
+        // with Adler-32 verification switched on, a compressed stream whose checksum does not match is a corrupt stream - in EVERY frame
+        // (the inflater is reset between frames; the option is the caller's, not per-stream state)
+        if fi % 2 == 0 {
+            let chunks = parse(&b.bytes).unwrap();
+            let fo = frame_of(&chunks);
+            let adler_on = Opts { ignore_adler: false, ..Opts::default() };
+            for k in 0..b.frames.len() {
+                if let Some(last) = (0..chunks.len()).filter(|&i| is_data(&chunks[i]) && fo[i] == k).last() {
+                    let mut c2 = chunks.clone();
+                    let n = c2[last].data.len();
+                    if n == 0 || (c2[last].ty == *b"fdAT" && n <= 4) { continue; }
+                    c2[last].data[n - 1] ^= 0x01;
+                    c2[last].crc = None;
+                    let inj = Inj { label: format!("adler-mismatch#f{}", k), bytes: assemble(&c2), frame: Some(k) };
+                    check_injection(&mut o, &b.name, &inj, adler_on, &base.frames);
+                }
+            }
+        }
         for inj in &injs {
             check_injection(&mut o, &b.name, inj, opts, &base.frames);
             check_polling_after_error(&mut o, &b.name, inj, opts);
